@@ -7,10 +7,11 @@ import (
 )
 
 // chunkCheck: parser output must not depend on chunking.
-//   run A: one-shot Parse of the whole input
-//   run B: ParseReader with a reader that delivers the chunks of the cut mask
-//   run C: a parser fed with Write per chunk (plus one empty write); without an end
-//          of input its events must be a prefix of A's and it may only fail if A fails
+//
+//	run A: one-shot Parse of the whole input
+//	run B: ParseReader with a reader that delivers the chunks of the cut mask
+//	run C: a parser fed with Write per chunk (plus one empty write); without an end
+//	       of input its events must be a prefix of A's and it may only fail if A fails
 func chunkCheck(h *rt.H, c *codec, doc []byte, cuts []bool) {
 	var a ev.Recorder
 	errA := c.parse(cloneBytes(doc), &a)
@@ -69,7 +70,7 @@ func CHUNK_json(h *rt.H)   { chunkBytes(h, jsonCodec) }
 // repChoice: the representation choices of a shaped document; a second document of
 // the same stream reuses the first one's choices (only the shapes multiply).
 type repChoice struct {
-	set                              bool
+	set                            bool
 	rep, container, indef, ws, esc int
 }
 
@@ -82,13 +83,18 @@ func shapedDocRep(h *rt.H, c *codec, r *repChoice) []byte {
 	v := gen.Value(h, genCfg(h))
 	if !r.set {
 		r.set = true
+		// deep chains (CHAIN): two representation choices instead of five
+		maxRep := 4
+		if h.Param("CHAIN", 0) > 0 {
+			maxRep = 1
+		}
 		switch c {
 		case cborCodec:
-			r.rep, r.indef = h.Choose("rep", 0, 4), h.Choose("indef", 0, 1)
+			r.rep, r.indef = h.Choose("rep", 0, maxRep), h.Choose("indef", 0, 1)
 		case ubjsonCodec:
-			r.rep, r.container = h.Choose("rep", 0, 4), h.Choose("container", 0, 3)
+			r.rep, r.container = h.Choose("rep", 0, maxRep), h.Choose("container", 0, 3)
 		default:
-			r.ws = h.Choose("ws", 0, 4)
+			r.ws = h.Choose("ws", 0, maxRep)
 			r.esc = h.Choose("esc", 0, h.Param("ESC", 0))
 		}
 	}
